@@ -40,7 +40,8 @@ EXPLANATION = (
     'on a pair that monotonicity of the conditional feature pins to equality '
     'must be exact, not a dominating maximum (L9). The loops of the strict '
     'repairs cover every pair of adjacent vertices (A5).'
-    ' Parallel statements for paired roles vary consistently (CP1), and a constraint tuple is only looked up among tuples (T4 membership).')
+    ' Parallel statements for paired roles vary consistently (CP1), and a constraint tuple is only looked up among tuples (T4 membership).'
+    ' Nothing that is used later is computed from a value before the statement that clips that value (X5, self-clip order).')
 ASSUMPTIONS = ['tf.maximum/minimum/reduce_max/reduce_min semantics',
                'configurations rejected by verify_hyperparameters do not occur']
 
